@@ -18,8 +18,10 @@ LEVEL = 'exploration'
 
 HIER = ['EBCM_from_graph', 'SIR_compact_pairwise_from_graph', 'SIR_super_compact_pairwise_from_graph',
         'SIR_effective_degree_from_graph', 'SIR_compact_effective_degree_from_graph']
-PAIR_FAMILY = {'SIS': ['SIS_heterogeneous_pairwise_from_graph', 'SIS_compact_pairwise_from_graph', 'SIS_pair_based', 'SIS_homogeneous_pairwise_from_graph'],
-               'SIR': ['SIR_heterogeneous_pairwise_from_graph', 'SIR_compact_pairwise_from_graph', 'SIR_pair_based', 'SIR_homogeneous_pairwise_from_graph']}
+PAIR_FAMILY = {'SIS': ['SIS_heterogeneous_pairwise_from_graph', 'SIS_compact_pairwise_from_graph', 'SIS_pair_based', 'SIS_homogeneous_pairwise_from_graph',
+                       'SIS_heterogeneous_pairwise[dense]'],       # [dense]: the solver's own array interface, arrays indexed by degree 0..kmax
+               'SIR': ['SIR_heterogeneous_pairwise_from_graph', 'SIR_compact_pairwise_from_graph', 'SIR_pair_based', 'SIR_homogeneous_pairwise_from_graph',
+                       'SIR_heterogeneous_pairwise[dense]']}
 MF_FAMILY = {'SIS': ['SIS_heterogeneous_meanfield_from_graph', 'SIS_individual_based', 'SIS_homogeneous_meanfield_from_graph'],
              'SIR': ['SIR_heterogeneous_meanfield_from_graph', 'SIR_individual_based', 'SIR_homogeneous_meanfield_from_graph']}
 ADAMS = {'SIS_pair_based', 'SIS_heterogeneous_pairwise_from_graph'}
